@@ -793,10 +793,15 @@ func (fe *FnExec) assert(st *State, goal Term, name, kind string, tags []string,
 	o := &Obligation{Func: shortFn(fe.Fn.String()), Name: fe.oblName(name), Kind: kind, Tags: tags, Path: strings.Join(st.trace, " "),
 		Text: text, Pos: fe.pos(pos), Query: fe.buildQuery(st, goal, false, hdr), Watch: fe.watch}
 	fe.emit(o)
-	if !fe.noAssume {
+	if !fe.noAssume && !(fe.Fn != nil && unmaskNames[fe.Fn.String()][fe.oblName(name)]) {
 		st.assume(goal, "proved: "+name)
 	}
 }
+
+// unmaskNames: obligations (by function and name) that failed in an earlier pass and
+// are therefore not assumed for the rest of their path in a re-run - an assumed false
+// fact would make every later obligation of the path vacuously true.
+var unmaskNames = map[string]map[string]bool{}
 
 func (fe *FnExec) cover(st *State, name, text string) {
 	hdr := fmt.Sprintf("cover %s (expect sat): %s", fe.oblName("cover/"+name), text)
